@@ -491,9 +491,29 @@ pub fn colon_colon_completions(
             .ok()?;
 
     let mut items = colon_colon_items_for_namespace(&genv, &namespace);
+    items.retain(|item| position_admits(&path_node, item));
     items.sort_by(|a, b| a.name.cmp(&b.name));
     items.retain(|item| item.name.starts_with(&prefix));
     Some(items)
+}
+
+/// Whether `item` can stand where `path` stands. A path written as a type names a type, the
+/// path of a `dyn`, of a trait bound or of an impl header names a trait, and the head of a struct
+/// literal names a struct; expression and pattern positions admit everything.
+fn position_admits(path: &cst::nodes::Path, item: &ColonColonCompletionItem) -> bool {
+    let Some(parent) = path.syntax().parent() else {
+        return true;
+    };
+    match parent.kind() {
+        MySyntaxKind::TYPE_TAPP => item.kind == ColonColonCompletionKind::Type,
+        MySyntaxKind::TYPE_DYN | MySyntaxKind::TRAIT_SET | MySyntaxKind::IMPL => {
+            item.kind == ColonColonCompletionKind::Trait
+        }
+        MySyntaxKind::EXPR_STRUCT_LITERAL => {
+            item.kind == ColonColonCompletionKind::Type && item.detail.as_deref() == Some("struct")
+        }
+        _ => true,
+    }
 }
 
 fn type_constructor_name(ty: &tast::Ty) -> Option<&str> {
